@@ -25,7 +25,9 @@ func (s *Store) deleteModule(m *ModuleInstance) error {
 	m.prev = nil
 	m.next = nil
 
-	if m.ModuleName != "" {
+	// Only release the name when this module owns it: a module whose registration was refused
+	// because the name is taken must not unregister the live owner when it is closed.
+	if m.ModuleName != "" && s.nameToModule[m.ModuleName] == m {
 		delete(s.nameToModule, m.ModuleName)
 
 		// Shrink the map if it's allocated more than twice the size of the list
